@@ -2,6 +2,7 @@ import PyTrie.Lemmas.WalkProofs
 import PyTrie.Lemmas.WalkConcrete
 import PyTrie.Lemmas.ReadPartial
 import PyTrie.Lemmas.VersionsConsistent
+import PyTrie.Lemmas.WalkDRefines
 import PyTrie.Props.C08
 /-! # C09 — a fog-guided walk finds everything, even while the trie changes
 
@@ -174,5 +175,31 @@ theorem old_version_read_truthful (H : Bytes → Bytes) (hlen : ∀ b, (H b).len
       | none => .ok (TravOut.toD H (traverseOut (run (ops.take i)) p)) :=
   traverseOutD_partial H hlen s.store.base (run (ops.take i)) (PyTrie.Props.C01.canon_run _)
     (all_versions_consistent H prune ops T s h i hi).2 p fuel hf
+
+end PyTrie.Props.C09
+
+/-! ## The walk step at raw level
+
+`Model/WalkD.lean`: the loop body over a root hash, the database as it is now, and a `TrieFrontierCache` of raw node
+bodies — run against the code in every walk of the correspondence check, stale pruned parents included. `toCD` maps a
+tree-level walk state to its raw image; `CacheOkD`: every cached parent is canonical and partially consistent with the
+database (true along any run: `earlier_versions_consistent`). -/
+namespace PyTrie.Props.C09
+open PyTrie PyTrie.Hex PyTrie.HexD PyTrie.HexRaw PyTrie.Fog
+
+/-- **the raw-level step is the tree-level step, or `MissingTraversalNode` for a node that really is absent** — so
+    `concrete_finds_stable`, `concrete_sound` and the termination measure are statements about the raw-level loop body -/
+theorem raw_step_refines (H : Bytes → Bytes) (hlen : ∀ b, (H b).length = 32) (db : Db) (root : Hash) (t : Node) (hc : Canon t)
+    (hroot : RootPartial H db root t) (hst : PartialD H db t)
+    (s : CState) (hcache : CacheOkD H db s.cache) (p : Path) :
+    (∃ h pre, cstepD H db root (toCD H s) p = .error (.missing h pre) ∧ lookup db h = none) ∨
+    cstepD H db root (toCD H s) p = .ok ((cstep t s p).map (toCD H)) :=
+  cstepD_refines H hlen db root t hc hroot hst s hcache p
+
+/-- the cache invariant of the raw level is kept by every successful step -/
+theorem raw_cache_invariant (H : Bytes → Bytes) (db : Db) (t : Node) (hc : Canon t) (hst : PartialD H db t)
+    (s : CState) (hcache : CacheOkD H db s.cache) (p : Path) (s' : CState) (h : cstep t s p = some s') :
+    CacheOkD H db s'.cache :=
+  cstep_cacheOkD H db t hc hst s hcache p s' h
 
 end PyTrie.Props.C09
